@@ -172,8 +172,14 @@ def r4(ctx, prog):
             ok = ok and z and d.cfg.dominates(q.pt(d, dec[0]), q.pt(d, c))
         for c in cl:
             gs = d.cfg.controlling_branches(q.pt(d, c))
-            ok = ok and any(q.edge_says(d, g, k, lambda l: l.endswith('detail_.fd'), ('>=',), lambda r: r == '0') or
-                            q.edge_says(d, g, k, lambda l: l.endswith('detail_.fd'), ('>',), lambda r: r == '-1') for g, k, b in gs)
+            # "the descriptor is valid" in any spelling (>= 0, > -1, != -1): the edge is taken for 0, 1, 2 and not for -1
+            def valid_edge(g, k):
+                isfd = lambda sx: sx['k'] == 'MemberExpr' and sx.get('n') == 'fd'
+                if not any(isfd(d.stmts[x]) for x in d.walk(g)):
+                    return False
+                vec = [q.eval_expr(d, g, lambda sx, v=v: v if isfd(sx) else None, signed=True) for v in (-1, 0, 1, 2)]
+                return None not in vec and [bool(x) == (k == 0) for x in vec] == [False, True, True, True]
+            ok = ok and any(valid_edge(g, k) for g, k, b in gs)
     ctx.ob('C08.R4', '%s|last-release-closes' % d.name, ok, 'one decrement; close and delete only under ref_count == 0 (close also under fd >= 0)', where=d.loc(d.body))
     c = prog.fn1(FD + '::close')
     mark = [st for st in c.stmts if st and st['k'] == 'BinaryOperator' and st.get('op') == '=' and c.path(st['ch'][0]) == 'detail_.fd' and c.s(c.strip_casts(st['ch'][1])).get('cv') == -1]
